@@ -72,6 +72,11 @@ impl Lat {
         let ox = *r.pick(&offs);
         let oy = *r.pick(&offs);
         let sh = if r.chance(1, 2) { 0 } else { r.range(-30, 30) as i32 };
+        // one lattice in ten at an extreme scale, without offset (whole extent around 1e-23..1e-11 or 1e13..1e25): nothing
+        // absolute - an epsilon, a unit snap, a "numerically zero" guard - may enter a result
+        if r.chance(1, 10) {
+            return Lat { ox: 0, oy: 0, sh: if r.chance(1, 2) { r.range(-80, -40) } else { r.range(40, 80) } as i32, shear: 0 };
+        }
         Lat { ox, oy, sh, shear: 0 }
     }
     pub fn json(&self) -> Value {
